@@ -34,6 +34,10 @@ type Config struct {
 	JE           uint64   `json:"je"` // initial justified = (anchor root, JE)
 	FE           uint64   `json:"fe"` // initial finalized = (anchor root, FE)
 	Bal          []uint64 `json:"bal"`
+	// BalN further validators with balance BalEach each follow the listed ones (tens of thousands of voters
+	// without tens of thousands of numbers in the case)
+	BalN    int    `json:"bal_n,omitempty"`
+	BalEach uint64 `json:"bal_each,omitempty"`
 	Sink         string   `json:"sink"`              // "ok" | "nil" | "fail"
 	FailAt       int      `json:"fail_at,omitempty"` // sink=fail: the FailAt-th OnPrunedNode call (1-based, counted over the whole case) returns an error
 }
@@ -43,6 +47,7 @@ const (
 	KBlock   = "block"   // ProcessBlock(P, R, S, JE, FE)
 	KSlot    = "slot"    // ProcessSlot(P, S, JE, FE)
 	KAtt     = "att"     // ProcessAttestation(V, R, S)
+	KAttN    = "attn"    // ProcessAttestation(v, R, S) for v = V … V+N-1
 	KUpd     = "upd"     // UpdateJustified(T, J, F, balances)
 	KPin     = "pin"     // SetPin(R, S)
 	KHead    = "head"    // Head()
@@ -63,6 +68,7 @@ type Op struct {
 	JE     uint64   `json:"je,omitempty"`
 	FE     uint64   `json:"fe,omitempty"`
 	V      int      `json:"v,omitempty"`
+	N      int      `json:"n,omitempty"`
 	T      int      `json:"t,omitempty"`
 	J      *Cp      `json:"j,omitempty"`
 	F      *Cp      `json:"f,omitempty"`
